@@ -6,7 +6,7 @@ use samlang_heap::Heap;
 use std::collections::HashMap;
 
 #[test]
-fn verif_witness_search() {
+fn verif_witness_search_errors() {
   let programs: [(&str, &str); 9] = [
     ("operand of the wrong type", "class Main { function main(): unit = { let _ = 1 + true; } }"),
     ("wrong number of arguments", "class Main { function f(a: int): int = a function main(): unit = { let _ = Main.f(1, 2); } }"),
@@ -31,4 +31,191 @@ fn verif_witness_search() {
     }
   }
   println!("WITNESS-SEARCH: no violating history found (9 erroneous programs)");
+}
+
+// Witness search for unit `loopvars` (C01): self tail calls that permute or shift their parameters; the
+// emitted TypeScript loop (the WebAssembly loop has the same assignments in the same order) may not read a
+// loop variable after overwriting it.
+#[test]
+fn verif_witness_search_loopvars() {
+  let programs: [(&str, &str); 5] = [
+    ("swap", "function f(a: int, b: int, n: int): int = if n == 0 { a } else { Main.f(b, a, n - 1) }"),
+    ("rotate", "function f(a: int, b: int, c: int, n: int): int = if n == 0 { a } else { Main.f(b, c, a, n - 1) }"),
+    ("shift", "function f(a: int, b: int, n: int): int = if n == 0 { b } else { Main.f(n, a, n - 1) }"),
+    ("swap of strings", "function f(a: Str, b: Str, n: int): Str = if n == 0 { a } else { Main.f(b, a, n - 1) }"),
+    ("duplicate", "function f(a: int, b: int, c: int, n: int): int = if n == 0 { c } else { Main.f(b, a, a, n - 1) }"),
+  ];
+  for (what, member) in programs {
+    let heap = &mut Heap::new();
+    let mod_ref = heap.alloc_module_reference_from_string_vec(vec!["Demo".to_string()]);
+    let args = if member.contains("a: Str") { "\"x\", \"y\", \"3\".toInt()" } else if member.contains("c: int") { "\"1\".toInt(), \"2\".toInt(), \"3\".toInt(), \"4\".toInt()" } else { "\"1\".toInt(), \"2\".toInt(), \"3\".toInt()" };
+    let print = if member.contains("a: Str") { format!("Main.f({args})") } else { format!("Str.fromInt(Main.f({args}))") };
+    let text = format!("class Main {{\n  {member}\n  function main(): unit = {{ let _ = Process.println({print}); }}\n}}");
+    let mut sources = HashMap::from([(mod_ref, text.clone())]);
+    for (m, s) in samlang_parser::builtin_std_raw_sources(heap) {
+      sources.insert(m, s);
+    }
+    let Ok(result) = compile_sources(heap, sources, vec![mod_ref], false) else {
+      println!("WITNESS-SEARCH: program `{what}` does not compile: {text}");
+      continue;
+    };
+    let ts = result.text_code_results.get("Demo.ts").unwrap();
+    let Some(rest) = ts.split("while (true) {").nth(1) else { continue };
+    let body = rest.split("\n  }\n").next().unwrap();
+    let mut assigned: Vec<&str> = Vec::new();
+    for line in body.lines().map(|l| l.trim()) {
+      if line.starts_with("let ") || line.starts_with("if ") || line == "}" || line == "break;" {
+        assigned.clear();
+        continue;
+      }
+      if let Some((lhs, rhs)) = line.trim_end_matches(';').split_once(" = ") {
+        if assigned.contains(&rhs) {
+          println!(
+            "WITNESS: tail call `{what}` ({member}): the emitted loop executes `{line}` after `{rhs}` was overwritten, so the parameter values of the next iteration are not the arguments of the call; loop body: {}",
+            body.replace('\n', " ")
+          );
+          return;
+        }
+        assigned.push(lhs);
+      }
+    }
+  }
+  println!("WITNESS-SEARCH: no violating history found (5 tail-recursive functions)");
+}
+
+fn compile_demo(text: &str) -> Option<(String, String)> {
+  let heap = &mut Heap::new();
+  let mod_ref = heap.alloc_module_reference_from_string_vec(vec!["Demo".to_string()]);
+  let mut sources = HashMap::from([(mod_ref, text.to_string())]);
+  for (m, s) in samlang_parser::builtin_std_raw_sources(heap) {
+    sources.insert(m, s);
+  }
+  let result = compile_sources(heap, sources, vec![mod_ref], false).ok()?;
+  let ts = result.text_code_results.get("Demo.ts")?.clone();
+  let wat = compile_sources_wat_text_for_witness(text)?;
+  Some((ts, wat))
+}
+
+/// the WebAssembly text of the same program (compile_sources only returns the binary)
+fn compile_sources_wat_text_for_witness(text: &str) -> Option<String> {
+  let heap = &mut Heap::new();
+  let mod_ref = heap.alloc_module_reference_from_string_vec(vec!["Demo".to_string()]);
+  let mut sources = HashMap::from([(mod_ref, text.to_string())]);
+  for (m, s) in samlang_parser::builtin_std_raw_sources(heap) {
+    sources.insert(m, s);
+  }
+  let mut error_set = samlang_errors::ErrorSet::new();
+  let mut parsed = HashMap::new();
+  for (m, s) in &sources {
+    parsed.insert(*m, samlang_parser::parse_source_module_from_text(s, *m, heap, &mut error_set));
+  }
+  let checked = samlang_checker::type_check_sources(&parsed, &mut error_set).0;
+  if error_set.has_errors() {
+    return None;
+  }
+  let mir = compile_sources_to_mir(heap, &checked);
+  let mir = samlang_optimization::optimize_sources(heap, mir, &samlang_optimization::ALL_ENABLED_CONFIGURATION);
+  let lir = compile_mir_to_lir(heap, mir);
+  Some(compile_lir_to_wasm(heap, lir).0)
+}
+
+// Witness search for units `wasmlower` / `oparms` (C01, C04): every source operator applied to a run-time
+// value and a constant (also powers of two) must come out as its own WebAssembly instruction and its own
+// TypeScript template, operands in source order.
+#[test]
+fn verif_witness_search_operators() {
+  let ops: [(&str, &str, &str); 11] = [
+    ("+", "i32.add", "{a} + {b}"), ("-", "i32.add", "{a} + -{b}"), ("*", "i32.mul", "{a} * {b}"),
+    ("/", "i32.div_s", "Math.floor({a} / {b})"), ("%", "i32.rem_s", "{a} % {b}"),
+    ("<", "i32.lt_s", "Number({a} < {b})"), ("<=", "i32.le_s", "Number({a} <= {b})"),
+    (">", "i32.gt_s", "Number({a} > {b})"), (">=", "i32.ge_s", "Number({a} >= {b})"),
+    ("==", "i32.eq", "Number({a} == {b})"), ("!=", "i32.ne", "Number({a} != {b})"),
+  ];
+  let mut checked = 0usize;
+  for (op, instr, template) in ops {
+    for c in [3, 4, 7, 8, 1024] {
+      let is_cmp = template.starts_with("Number");
+      let shown = if is_cmp { format!("if x {op} {c} {{ 1 }} else {{ 0 }}") } else { format!("x {op} {c}") };
+      let text = format!(
+        "class Main {{\n  function main(): unit = {{ let x = \"9\".toInt(); let _ = Process.println(Str.fromInt({shown})); }}\n}}"
+      );
+      let Some((ts, wat)) = compile_demo(&text) else { continue };
+      checked += 1;
+      let konst = if op == "-" { format!("-{c}") } else { c.to_string() };
+      let wat_ok = wat.lines().any(|l| l.contains(&format!("({instr} (local.get ")) && l.contains(&format!("(i32.const {konst}))")));
+      if !wat_ok {
+        println!("WITNESS: `x {op} {c}` (x known only at run time): the emitted WebAssembly has no `({instr} (local.get ..) (i32.const {konst}))`; main: {}",
+          wat.split("(func $_Demo_Main$main").nth(1).unwrap_or("").split("\n)\n").next().unwrap_or("").replace('\n', " "));
+        return;
+      }
+      let tail = template.replace("{a}", "").replace("{b}", &c.to_string());
+      let tail = tail.trim_start_matches("Math.floor(").trim_start_matches("Number(");
+      let ts_ok = ts.lines().any(|l| l.contains(tail) && (template.starts_with("Math.floor") == l.contains("Math.floor(")) && (is_cmp == l.contains("Number(")));
+      if !ts_ok {
+        println!("WITNESS: `x {op} {c}` (x known only at run time): the emitted TypeScript has no line of the form `{}`; main: {}",
+          template.replace("{a}", "x").replace("{b}", &c.to_string()),
+          ts.split("function _Demo_Main$main").nth(1).unwrap_or("").split("\n}\n").next().unwrap_or("").replace('\n', " "));
+        return;
+      }
+    }
+  }
+  println!("WITNESS-SEARCH: no violating history found ({checked} operator / constant pairs)");
+}
+
+fn wat_bytes(s: &str) -> Vec<u8> {
+  let cs: Vec<char> = s.chars().collect();
+  let mut out = Vec::new();
+  let mut i = 0;
+  while i < cs.len() {
+    if cs[i] == '\\' && i + 2 < cs.len() {
+      out.push(u8::from_str_radix(&cs[i + 1..i + 3].iter().collect::<String>(), 16).unwrap_or(b'?'));
+      i += 3;
+    } else {
+      out.push(cs[i] as u8);
+      i += 1;
+    }
+  }
+  out
+}
+
+// Witness search for unit `strconst` (C04): plain ASCII string constants (substrings, prefixes, duplicates,
+// the empty string) must denote the same text in the TypeScript literal and in the WebAssembly data segment
+// at the recorded offset and length.
+#[test]
+fn verif_witness_search_string_constants() {
+  let lists: [&[&str]; 4] = [
+    &["Hello World", "World", "Hello", "", "lo W"],
+    &["abc", "abc1", "bc", "c", "abcabc"],
+    &["x", "xx", "xxx", "y x"],
+    &["The quick brown fox", "quick", "fox", "The"],
+  ];
+  let mut checked = 0usize;
+  for list in lists {
+    let prints = list.iter().map(|s| format!("let _ = Process.println(\"{s}\");")).collect::<Vec<_>>().join(" ");
+    let text = format!("class Main {{\n  function main(): unit = {{ {prints} }}\n}}");
+    let Some((ts, wat)) = compile_demo(&text) else { continue };
+    let data = wat.lines().find_map(|l| l.strip_prefix("(data $d2 \"").and_then(|r| r.strip_suffix("\")"))).map(wat_bytes).unwrap_or_default();
+    for line in ts.lines() {
+      let Some(rest) = line.strip_prefix("const GLOBAL_STRING_") else { continue };
+      let Some((idx, rest)) = rest.split_once(": _Str = [0, `") else { continue };
+      let Some(ts_text) = rest.strip_suffix("` as unknown as number];") else { continue };
+      let needle = format!("(global.set $GLOBAL_STRING_{idx} (array.new_data $_Str $d2 (i32.const ");
+      let Some(init) = wat.lines().find(|l| l.contains(&needle)) else {
+        println!("WITNESS: string constant {idx} ({ts_text:?}) has no WebAssembly initialiser");
+        return;
+      };
+      let nums: Vec<usize> = init.split("(i32.const ").skip(1).filter_map(|p| p.split(')').next().and_then(|n| n.trim().parse().ok())).collect();
+      checked += 1;
+      let wasm_text = if nums.len() == 2 && nums[0] + nums[1] <= data.len() {
+        String::from_utf8_lossy(&data[nums[0]..nums[0] + nums[1]]).to_string()
+      } else {
+        format!("<offset/length {nums:?} outside the {} data bytes>", data.len())
+      };
+      if wasm_text != ts_text {
+        println!("WITNESS: string constant {idx}: the TypeScript literal is {ts_text:?}, the WebAssembly data at {nums:?} is {wasm_text:?}; constants of the program: {list:?}");
+        return;
+      }
+    }
+  }
+  println!("WITNESS-SEARCH: no violating history found ({checked} string constants)");
 }
